@@ -438,6 +438,7 @@ Lemma build_range_ok s rc f t sb rc' :
   s_meta sb = (f, u64_sub t f mod 2^32, cert_type).
 Proof.
   intros Hh [Hsb Hler] Hc Hft Hts Hst Hb. unfold AggsenderProtocol.build_range in Hb.
+  destruct (synced s <? t); [discriminate|].
   destruct (require_events && is_nil (bridges_in (l2 s) f t) && is_nil (claims_in (l2 s) f t)); [discriminate|].
   destruct (rows s) as [|top rest] eqn:Er; cbn [hd_error] in Hb.
   - (* first certificate *)
@@ -910,6 +911,7 @@ Theorem exits_are_range_events s cut sb rc : build s cut = Some (sb, rc) ->
 Proof.
   unfold AggsenderProtocol.build. destruct (last_sent_block (hd_error (rows s))) as [prev_to rc0].
   destruct (synced s <=? prev_to); [discriminate|]. unfold AggsenderProtocol.build_range.
+  destruct (synced s <? _); [discriminate|].
   destruct (require_events && _ && _); [discriminate|]. destruct (_ && _); [discriminate|].
   destruct (next_height_ler _) as [[h p]|]; [|discriminate]. destruct (new_ler _ _ _); [|discriminate].
   intros H; inversion H; subst. cbn. repeat split; reflexivity.
